@@ -15,7 +15,7 @@ use std::cell::RefCell;
 use std::io::{BufWriter, Read, Seek as IoSeek, SeekFrom, Write};
 use std::rc::Rc;
 
-pub const RULE: &str = "scenarios: encode+finalize through sample/byte/channel writers (stereo: seek table on/off × declared/undeclared; mono, 3 and 6 channels: sample and channel writers; raw frames with 3 channels) directly over the device (at offset 0 and behind a 24-byte foreign prefix) and over BufWriter<device> passed by value (as the crate's own create(path) does); FlacStreamWriter::write ×2; write_blocks; update_file in place (shrink / equal / grow into padding) and rebuilt; decode through 3 readers, the raw-frame reader (FlacStreamReader over a 16-byte BufReader), the structural frame iterator, a seek, verify_reader, generate_seektable, BlockList::read and update_file under failing reads. For each scenario EVERY index n of the n-th write/flush/seek (resp. read) call × {permanent from n, once at n, Interrupted at n, 1-byte short transfer at n}; every pair of faults on all scenarios; thorough adds every triple on scenarios with ≤ 40 targeted calls. A state is one (scenario, fault schedule); outcomes = (scenario, kind, api result, contents equal?)";
+pub const RULE: &str = "scenarios: encode+finalize through sample/byte/channel writers (stereo: seek table on/off × declared/undeclared; mono, 3 and 6 channels: sample and channel writers; raw frames with 3 channels) directly over the device (at offset 0 and behind a 24-byte foreign prefix) and over BufWriter<device> passed by value (as the crate's own create(path) does); FlacStreamWriter::write ×2; write_blocks; update_file in place (shrink / equal / grow into padding) and rebuilt; decode through 3 readers, the raw-frame reader (FlacStreamReader over a 16-byte BufReader), the structural frame iterator, a seek, verify_reader, generate_seektable, BlockList::read and update_file under failing reads. For each scenario EVERY index n of the n-th write/flush/seek (resp. read) call × {permanent from n, once at n, Interrupted at n, 1-byte short transfer at n}; every pair of faults on all scenarios; thorough adds every triple on scenarios with ≤ 64 targeted calls. A state is one (scenario, fault schedule); outcomes = (scenario, kind, api result, contents equal?)";
 pub const ASSUMPTIONS: &[&str] = &["fault sequences with more than 2 (thorough: 3 on short scenarios) faults are not explored", "File-backed entry points (create/open/update(path)) are the same generic code over BufWriter<File>/File; they are represented by the BufWriter<device> scenarios"];
 pub fn bounds(quick: bool) -> Value {
     json!({"single_faults": "every call index × 4 kinds, all scenarios", "pairs": "all scenarios, all kinds", "triples": if quick { "none" } else { "scenarios with <= 40 targeted calls" }})
@@ -391,7 +391,7 @@ pub fn run(ctx: &Ctx, acc: &mut Acc) {
             }
         }
         // deviation bound 3 where the scenario is short enough (thorough)
-        if ctx.thorough() && n <= 40 {
+        if ctx.thorough() && n <= 64 {
             for i in 0..n {
                 for j in i + 1..n {
                     for l in j + 1..n {
